@@ -73,18 +73,20 @@ type C1 struct {
 	TID    uint16
 	LibReq packet.Request
 
-	IOErr           error  // identity of the injected hard I/O error (nil: the plain sentinel); always wraps ErrSimIO
-	Endless         bool   // oversize: after the scripted bytes the sender never stops
-	Reconnect       int    // (follow-up call, network clients) before this call: 1 = Connect again without Close, 2 = Close then Connect
-	ConfOneFunc     int    // network clients built by the protocol constructors: 1 = only ParseResponseFunc given in the config (the protocol's own), 2 = only AsProtocolErrorFunc, 3 = (RTU) both given, the CRC-less variants
-	ValueHooks      bool   // the hooks are a value type installed by value (zero value)
-	Marathon        int    // after the (first) call the same request is made this many more times on the same client, each answered by the same reply script
-	DeadlinePort    bool   // serial port without Flush but with SetReadDeadline
-	NilHooksOption  bool   // serial client built with WithSerialHooks(nil) when no hooks are wanted
-	ZeroNilReads    bool   // network transports: a non-blocking connection whose reads return (0, nil) when nothing has arrived
-	WrappedTimeouts bool   // network transports report read timeouts as a *net.OpError wrapping the sentinel, as real sockets do
-	Reply           []byte // bytes the transport will deliver (before any terminal fault)
-	Full            []byte // the complete well-formed reply (Reply may be a prefix or a corruption of it)
+	IOErr           error         // identity of the injected hard I/O error (nil: the plain sentinel); always wraps ErrSimIO
+	Endless         bool          // oversize: after the scripted bytes the sender never stops
+	Reconnect       int           // (follow-up call, network clients) before this call: 1 = Connect again without Close, 2 = Close then Connect
+	ConfOneFunc     int           // network clients built by the protocol constructors: 1 = only ParseResponseFunc given in the config (the protocol's own), 2 = only AsProtocolErrorFunc, 3 = (RTU) both given, the CRC-less variants
+	ValueHooks      bool          // the hooks are a value type installed by value (zero value)
+	Marathon        int           // after the (first) call the same request is made this many more times on the same client, each answered by the same reply script
+	DeadlinePort    bool          // serial port without Flush but with SetReadDeadline
+	NilHooksOption  bool          // serial client built with WithSerialHooks(nil) when no hooks are wanted
+	PanicHook       string        // "write" | "read" | "parse": the installed hook of that kind panics once; the application recovers the panic and goes on using the client
+	HookDelay       time.Duration // every hook call takes this long (simulated)
+	ZeroNilReads    bool          // network transports: a non-blocking connection whose reads return (0, nil) when nothing has arrived
+	WrappedTimeouts bool          // network transports report read timeouts as a *net.OpError wrapping the sentinel, as real sockets do
+	Reply           []byte        // bytes the transport will deliver (before any terminal fault)
+	Full            []byte        // the complete well-formed reply (Reply may be a prefix or a corruption of it)
 	IsExc           bool
 	ExcCode         byte
 	Chunks          []Chunk
@@ -119,16 +121,33 @@ type hookRec struct {
 	Err  error
 }
 
-type recHooks struct{ recs []hookRec }
+type recHooks struct {
+	recs    []hookRec
+	panicAt string // "write" | "read" | "parse": the hook of that kind panics the first time it is called (a logger with a bug)
+	delay   func() // set: every hook call takes a little simulated time
+}
+
+func (h *recHooks) misbehave(kind string) {
+	if h.delay != nil {
+		h.delay()
+	}
+	if h.panicAt == kind {
+		h.panicAt = ""
+		panic("logging hook panics on purpose (index out of range in its formatter)")
+	}
+}
 
 func (h *recHooks) BeforeWrite(b []byte) {
 	h.recs = append(h.recs, hookRec{Kind: "write", Data: append([]byte(nil), b...), Live: b})
+	h.misbehave("write")
 }
 func (h *recHooks) AfterEachRead(b []byte, n int, err error) {
 	h.recs = append(h.recs, hookRec{Kind: "read", Data: append([]byte(nil), b...), Live: b, N: n, Err: err})
+	h.misbehave("read")
 }
 func (h *recHooks) BeforeParse(b []byte) {
 	h.recs = append(h.recs, hookRec{Kind: "parse", Data: append([]byte(nil), b...), Live: b})
+	h.misbehave("parse")
 }
 
 type C1Outcome struct {
@@ -145,6 +164,7 @@ type C1Outcome struct {
 	Hang              bool
 	OverStep          bool
 	Flushes           int
+	HookPanicked      bool   // the installed hook panicked inside Do and the application recovered it
 	MarathonBad       string // first repetition of a marathon that did not bring the reply (or did not return)
 	MarathonDone      int
 	StaleIO           string // first use of a connection that a later Connect had replaced
@@ -395,7 +415,10 @@ func RunC1(rc *RunCtx, sc *C1) *C1Outcome {
 	var hooks *recHooks
 	var installed modbus.ClientHooks
 	if sc.Hooks {
-		hooks = &recHooks{}
+		hooks = &recHooks{panicAt: sc.PanicHook}
+		if sc.HookDelay > 0 {
+			hooks.delay = func() { takeTime(s, "hook", cl.locker(), sc.HookDelay) }
+		}
 		installed = hooks
 		if sc.ValueHooks {
 			// hooks implemented on a value type and installed by value (its zero value, as a stateless logger is)
@@ -534,7 +557,18 @@ func RunC1(rc *RunCtx, sc *C1) *C1Outcome {
 		}
 		t0 := s.Now()
 		out.Start = t0
-		out.Resp, out.Err = doer.Do(ctx, req)
+		func() {
+			if sc.PanicHook != "" {
+				// the application's own recover around its polling step: user code called by the client panicked
+				defer func() {
+					if r := recover(); r != nil {
+						out.HookPanicked = true
+						out.Err = fmt.Errorf("recovered: %v", r)
+					}
+				}()
+			}
+			out.Resp, out.Err = doer.Do(ctx, req)
+		}()
 		out.Elapsed = s.Now() - t0
 		out.Returned = true
 		out.PendingRead = reading > 0
@@ -603,7 +637,17 @@ func RunC1(rc *RunCtx, sc *C1) *C1Outcome {
 			o.Start = t1
 			// follow-up calls get a fresh context: a deadline left over from the first call could fall on the follow-up's own
 			// timeout instant, and Go picks at random when both are ready in one select (not a tape decision)
-			o.Resp, o.Err = doer.Do(context.Background(), next.LibReq)
+			func() {
+				if sc.PanicHook != "" {
+					defer func() { // (the hook had not been reached in the first call: it panics in this one)
+						if r := recover(); r != nil {
+							o.HookPanicked = true
+							o.Err = fmt.Errorf("recovered: %v", r)
+						}
+					}()
+				}
+				o.Resp, o.Err = doer.Do(context.Background(), next.LibReq)
+			}()
 			o.Elapsed = s.Now() - t1
 			o.Returned = true
 			o.PendingRead = reading > 0
